@@ -12,7 +12,7 @@ from .. import common as C
 MODULE = "Props.C06"
 THEOREMS = ["C06_accepts_iff_rust_match", "C06_diagnostics_independent", "C06_empty_accepts_everything",
             "C06_f3_repaired", "C06_guard_join", "C06_packing", "C06_coercion_is_view", "C06_locals_distinct",
-            "C06_frontend", "C06_nonvacuous", "Runtime.C06_runtime_consults_like_a_match", "Runtime.C06_diagnostics_only_after_the_decision",
+            "C06_frontend", "C06_ne_is_user_code", "C06_nonvacuous", "Runtime.C06_runtime_consults_like_a_match", "Runtime.C06_diagnostics_only_after_the_decision",
             "Runtime.C06_ordered_call_consults_one_matcher", "Runtime.C06_trace_nonvacuous"]
 HARNESS = "matching"
 F3_ID = "F3"
